@@ -7,7 +7,7 @@ namespace Rpcx.Mux
 /-! ### the call table -/
 
 def bump (o : Outcome) (r : CallRec) : CallRec :=
-  { r with signals := r.signals + 1, outcome := some o, ret := r.ret.orElse (fun _ => some o) }
+  { r with signals := r.signals + 1, outcome := some o, ret := retAfter r o }
 
 theorem signal_get (calls : List CallRec) (c v : Nat) (o : Outcome) :
     (signal calls c o)[v]? = if v = c then (calls[c]?).map (bump o) else calls[v]? := by
@@ -43,6 +43,61 @@ theorem setPhase_get (calls : List CallRec) (c v : Nat) (p : Phase) :
         · rw [List.getElem?_eq_none h'] at h; cases h
       simp [List.getElem?_set, hlt]
     · simp [List.getElem?_set, hv, Ne.symm hv]
+
+
+theorem setRet_get (calls : List CallRec) (c v : Nat) (o : Outcome) :
+    (setRet calls c o)[v]? = if v = c then (calls[c]?).map (fun r => { r with ret := some o }) else calls[v]? := by
+  unfold setRet
+  cases h : calls[c]? with
+  | none => simp only; split <;> simp_all
+  | some r =>
+    simp only
+    by_cases hv : v = c
+    · subst hv
+      have hlt : v < calls.length := by
+        rcases Nat.lt_or_ge v calls.length with h' | h'
+        · exact h'
+        · rw [List.getElem?_eq_none h'] at h; cases h
+      simp [List.getElem?_set, hlt]
+    · simp [List.getElem?_set, hv, Ne.symm hv]
+
+theorem markWritten_get (calls : List CallRec) (c v : Nat) :
+    (markWritten calls c)[v]? = if v = c then (calls[c]?).map (fun r => { r with written := true, ret := r.ret.orElse (fun _ => r.outcome) }) else calls[v]? := by
+  unfold markWritten
+  cases h : calls[c]? with
+  | none => simp only; split <;> simp_all
+  | some r =>
+    simp only
+    by_cases hv : v = c
+    · subst hv
+      have hlt : v < calls.length := by
+        rcases Nat.lt_or_ge v calls.length with h' | h'
+        · exact h'
+        · rw [List.getElem?_eq_none h'] at h; cases h
+      simp [List.getElem?_set, hlt]
+    · simp [List.getElem?_set, hv, Ne.symm hv]
+
+/-- neither touches a signal count or a phase -/
+theorem setRet_view (calls : List CallRec) (c v : Nat) (o : Outcome) :
+    ((setRet calls c o)[v]?).map (fun r : CallRec => (r.signals, r.phase)) = (calls[v]?).map (fun r : CallRec => (r.signals, r.phase)) := by
+  rw [setRet_get]
+  split
+  · rename_i e; subst e; cases calls[v]? <;> simp
+  · rfl
+
+theorem markWritten_view (calls : List CallRec) (c v : Nat) :
+    ((markWritten calls c)[v]?).map (fun r : CallRec => (r.signals, r.phase)) = (calls[v]?).map (fun r : CallRec => (r.signals, r.phase)) := by
+  rw [markWritten_get]
+  split
+  · rename_i e; subst e; cases calls[v]? <;> simp
+  · rfl
+
+
+theorem setRet_ne (calls : List CallRec) (c v : Nat) (o : Outcome) (h : v ≠ c) : (setRet calls c o)[v]? = calls[v]? := by
+  rw [setRet_get]; simp [h]
+
+theorem markWritten_ne (calls : List CallRec) (c v : Nat) (h : v ≠ c) : (markWritten calls c)[v]? = calls[v]? := by
+  rw [markWritten_get]; simp [h]
 
 /-! ### the pending table -/
 
